@@ -98,12 +98,13 @@ func ruleBothModes(c *Ctx) {
 
 func init() {
 	register(&Rule{ID: "R17.string-encoder", Props: []string{"C17"}, Floor: 2,
-		Text: "the repository's own JSON string encoders (jsonString, appendJSONString — the producers the fragment typing trusts for every id, field name, payload and error text): every return is either the quote-wrapped input on the fast path or the output of encoding/json.Marshal on the slow path, and the fast path is reachable only for inputs all of whose bytes are printable ASCII other than '\"' and '\\\\' — the byte test is evaluated for all 256 byte values",
+		Text: "the repository's own JSON string encoders (jsonString, appendJSONString — the producers the fragment typing trusts for every id, field name, payload and error text): a loop over the bytes of the input (in the encoder or in a predicate it calls with the input) visits every byte and tests it; the test, evaluated for all 256 byte values, is true for every control byte, '\"', '\\' and every byte >= 0x80; when the test is true every return the scanner can reach is the escape verdict (the output of encoding/json.Marshal of the input, respectively true) and with the predicate true every return of the encoder is the Marshal output; while the test is false no return is reached except through the loop head, and no quote-wrapped return precedes the scan",
 		Run:  ruleStringEncoder})
 }
 
-// evalByteCond evaluates a boolean expression over a single byte operand (an index expression) for one byte value.
-func evalByteCond(info *types.Info, e ast.Expr, b int64) (val bool, ok bool) {
+// evalByteCond evaluates a boolean expression over a single byte operand (an expression for which cur is
+// true) for one byte value.
+func evalByteCond(info *types.Info, e ast.Expr, b int64, cur func(ast.Expr) bool) (val bool, ok bool) {
 	var num func(e ast.Expr) (int64, bool)
 	num = func(e ast.Expr) (int64, bool) {
 		e = ast.Unparen(e)
@@ -112,7 +113,7 @@ func evalByteCond(info *types.Info, e ast.Expr, b int64) (val bool, ok bool) {
 				return v, true
 			}
 		}
-		if _, isIdx := e.(*ast.IndexExpr); isIdx {
+		if cur(e) {
 			return b, true
 		}
 		return 0, false
@@ -121,14 +122,14 @@ func evalByteCond(info *types.Info, e ast.Expr, b int64) (val bool, ok bool) {
 	switch x := e.(type) {
 	case *ast.UnaryExpr:
 		if x.Op == token.NOT {
-			v, ok := evalByteCond(info, x.X, b)
+			v, ok := evalByteCond(info, x.X, b, cur)
 			return !v, ok
 		}
 	case *ast.BinaryExpr:
 		switch x.Op {
 		case token.LOR, token.LAND:
-			l, ok1 := evalByteCond(info, x.X, b)
-			r, ok2 := evalByteCond(info, x.Y, b)
+			l, ok1 := evalByteCond(info, x.X, b, cur)
+			r, ok2 := evalByteCond(info, x.Y, b, cur)
 			if !ok1 || !ok2 {
 				return false, false
 			}
@@ -161,6 +162,213 @@ func evalByteCond(info *types.Info, e ast.Expr, b int64) (val bool, ok bool) {
 	return false, false
 }
 
+// byteScan: a loop over the bytes of a string with a test of the current byte.
+type byteScan struct {
+	fn   *FuncInfo
+	fg   *FlowGraph
+	s    types.Object
+	loop ast.Stmt
+	test *ast.IfStmt
+	full bool // the loop visits every byte
+	cur  func(ast.Expr) bool
+}
+
+// findByteScan looks in fn (outside literals) for a loop over string parameter s that tests the current byte
+// against constants.
+func findByteScan(fn *FuncInfo, s types.Object) *byteScan {
+	info := fn.Info()
+	var out *byteScan
+	inspectNoLit(fn.Decl.Body, func(n ast.Node) bool {
+		if out != nil {
+			return false
+		}
+		var body *ast.BlockStmt
+		var idx, val types.Object
+		full := false
+		isS := func(e ast.Expr) bool {
+			id, ok := ast.Unparen(e).(*ast.Ident)
+			return ok && info.ObjectOf(id) == s
+		}
+		isLenS := func(e ast.Expr) bool {
+			call, ok := ast.Unparen(e).(*ast.CallExpr)
+			if !ok || len(call.Args) != 1 || !isS(call.Args[0]) {
+				return false
+			}
+			id, ok := ast.Unparen(call.Fun).(*ast.Ident)
+			return ok && info.Uses[id] == types.Universe.Lookup("len")
+		}
+		switch l := n.(type) {
+		case *ast.ForStmt:
+			// for i := 0; i < len(s); i++
+			as, ok := l.Init.(*ast.AssignStmt)
+			if !ok || len(as.Lhs) != 1 || len(as.Rhs) != 1 {
+				return true
+			}
+			iv, ok := as.Lhs[0].(*ast.Ident)
+			if !ok {
+				return true
+			}
+			idx = info.ObjectOf(iv)
+			body = l.Body
+			zero := false
+			if tv, ok := info.Types[as.Rhs[0]]; ok && tv.Value != nil && tv.Value.String() == "0" {
+				zero = true
+			}
+			be, ok := l.Cond.(*ast.BinaryExpr)
+			if !ok {
+				return true
+			}
+			upTo := false
+			if id, ok := ast.Unparen(be.X).(*ast.Ident); ok && info.ObjectOf(id) == idx && be.Op == token.LSS && isLenS(be.Y) {
+				upTo = true
+			}
+			if id, ok := ast.Unparen(be.Y).(*ast.Ident); ok && info.ObjectOf(id) == idx && be.Op == token.GTR && isLenS(be.X) {
+				upTo = true
+			}
+			inc := false
+			if p, ok := l.Post.(*ast.IncDecStmt); ok && p.Tok == token.INC {
+				if id, ok := ast.Unparen(p.X).(*ast.Ident); ok && info.ObjectOf(id) == idx {
+					inc = true
+				}
+			}
+			if !upTo && !isLenSAnywhere(info, l.Cond, s) {
+				return true // not a loop over s
+			}
+			full = zero && upTo && inc
+			// the index must not be assigned in the body
+			ast.Inspect(l.Body, func(m ast.Node) bool {
+				switch a := m.(type) {
+				case *ast.AssignStmt:
+					for _, lh := range a.Lhs {
+						if id, ok := ast.Unparen(lh).(*ast.Ident); ok && info.ObjectOf(id) == idx {
+							full = false
+						}
+					}
+				case *ast.IncDecStmt:
+					if id, ok := ast.Unparen(a.X).(*ast.Ident); ok && info.ObjectOf(id) == idx {
+						full = false
+					}
+				}
+				return true
+			})
+		case *ast.RangeStmt:
+			body = l.Body
+			x := ast.Unparen(l.X)
+			switch {
+			case isS(x) || isLenS(x):
+				// for i := range s (index of each rune start: bytes of multi-byte runes are skipped, but their first byte is >= 0x80)
+				// for i := range len(s)
+				if l.Value != nil {
+					return true
+				}
+				if id, ok := l.Key.(*ast.Ident); ok {
+					idx = info.ObjectOf(id)
+				}
+				full = isLenS(x)
+			default:
+				// for _, c := range []byte(s)
+				call, ok := x.(*ast.CallExpr)
+				if !ok || len(call.Args) != 1 || !isS(call.Args[0]) {
+					return true
+				}
+				if tv, ok := info.Types[call.Fun]; !ok || !tv.IsType() || !isByteSlice(tv.Type) {
+					return true
+				}
+				if id, ok := l.Value.(*ast.Ident); ok {
+					val = info.ObjectOf(id)
+				}
+				if id, ok := l.Key.(*ast.Ident); ok && id.Name != "_" {
+					idx = info.ObjectOf(id)
+				}
+				full = true
+			}
+		default:
+			return true
+		}
+		if body == nil {
+			return true
+		}
+		var cur func(e ast.Expr) bool
+		cur = func(e ast.Expr) bool {
+			e = ast.Unparen(e)
+			switch x := e.(type) {
+			case *ast.IndexExpr:
+				if !isS(x.X) || idx == nil {
+					return false
+				}
+				id, ok := ast.Unparen(x.Index).(*ast.Ident)
+				return ok && info.ObjectOf(id) == idx
+			case *ast.Ident:
+				if val != nil && info.ObjectOf(x) == val {
+					return true
+				}
+				if r := resolveLocal(info, body, x); r != ast.Expr(x) {
+					return cur(r)
+				}
+			}
+			return false
+		}
+		var test *ast.IfStmt
+		ast.Inspect(body, func(m ast.Node) bool {
+			switch t := m.(type) {
+			case *ast.FuncLit, *ast.ForStmt, *ast.RangeStmt:
+				return false
+			case *ast.IfStmt:
+				if test == nil {
+					if _, ok := evalByteCond(info, t.Cond, 0, cur); ok {
+						test = t
+					}
+				}
+			}
+			return true
+		})
+		if test != nil {
+			out = &byteScan{fn: fn, fg: newFlowGraph(info, fn.Decl.Body), s: s, loop: n.(ast.Stmt), test: test, full: full, cur: cur}
+		}
+		return true
+	})
+	return out
+}
+
+func isLenSAnywhere(info *types.Info, e ast.Expr, s types.Object) bool {
+	hit := false
+	ast.Inspect(e, func(n ast.Node) bool {
+		if call, ok := n.(*ast.CallExpr); ok && len(call.Args) == 1 {
+			if id, ok := ast.Unparen(call.Fun).(*ast.Ident); ok && info.Uses[id] == types.Universe.Lookup("len") {
+				if a, ok := ast.Unparen(call.Args[0]).(*ast.Ident); ok && info.ObjectOf(a) == s {
+					hit = true
+				}
+			}
+		}
+		return true
+	})
+	return hit
+}
+
+// loopHead: the nodes every iteration (and the exit) of the loop passes.
+func (bs *byteScan) loopHead(n ast.Node) bool {
+	switch l := bs.loop.(type) {
+	case *ast.ForStmt:
+		return n == ast.Node(l.Cond) || (l.Post != nil && n == ast.Node(l.Post))
+	case *ast.RangeStmt:
+		return (l.Key != nil && n == ast.Node(l.Key)) || (l.Value != nil && n == ast.Node(l.Value))
+	}
+	return false
+}
+
+func stringParam(fn *FuncInfo) types.Object {
+	info := fn.Info()
+	var sObj types.Object
+	for _, p := range fn.Decl.Type.Params.List {
+		for _, nm := range p.Names {
+			if b, ok := info.ObjectOf(nm).Type().Underlying().(*types.Basic); ok && b.Kind() == types.String {
+				sObj = info.ObjectOf(nm)
+			}
+		}
+	}
+	return sObj
+}
+
 func ruleStringEncoder(c *Ctx) {
 	for _, name := range []string{"jsonString", "appendJSONString"} {
 		fn := c.Func("internal/server", "", name)
@@ -170,84 +378,14 @@ func ruleStringEncoder(c *Ctx) {
 		}
 		info := fn.Info()
 		fg := newFlowGraph(info, fn.Decl.Body)
-		// the string parameter
-		var sObj types.Object
-		for _, p := range fn.Decl.Type.Params.List {
-			for _, nm := range p.Names {
-				if b, ok := info.ObjectOf(nm).Type().Underlying().(*types.Basic); ok && b.Kind() == types.String {
-					sObj = info.ObjectOf(nm)
-				}
-			}
-		}
+		sObj := stringParam(fn)
 		if sObj == nil {
 			c.und(name, fn.Decl.Pos(), "string parameter not found")
 			continue
 		}
-		// the scan loop with the byte test
-		var test *ast.IfStmt
-		var loop *ast.ForStmt
-		inspectNoLit(fn.Decl.Body, func(n ast.Node) bool {
-			fs, ok := n.(*ast.ForStmt)
-			if !ok || loop != nil {
-				return true
-			}
-			for _, st := range fs.Body.List {
-				if ifs, ok := st.(*ast.IfStmt); ok && ifs.Init == nil && ifs.Else == nil {
-					test, loop = ifs, fs
-				}
-			}
-			return true
-		})
-		if test == nil {
-			c.bad(name+"/byte-test", fn.Decl.Pos(), "no loop over the bytes of the input with an escape test: the input is emitted between quotes unexamined")
-			continue
-		}
-		// the loop visits every byte: for i := 0; i < len(s); i++
-		full := false
-		if be, ok := loop.Cond.(*ast.BinaryExpr); ok && be.Op == token.LSS {
-			if call, ok := ast.Unparen(be.Y).(*ast.CallExpr); ok && len(call.Args) == 1 {
-				if id, ok := ast.Unparen(call.Args[0]).(*ast.Ident); ok && info.ObjectOf(id) == sObj {
-					if as, ok := loop.Init.(*ast.AssignStmt); ok && len(as.Rhs) == 1 {
-						if tv, ok := info.Types[as.Rhs[0]]; ok && tv.Value != nil && tv.Value.String() == "0" {
-							if inc, ok := loop.Post.(*ast.IncDecStmt); ok && inc.Tok == token.INC {
-								full = true
-							}
-						}
-					}
-				}
-			}
-		}
-		c.check(full, name+"/scans-every-byte", loop.Pos(), "the escape test runs for i = 0 .. len(s)-1", "the loop with the escape test does not visit every byte of the input")
-		// evaluate the test for all byte values
-		var missed []string
-		undecided := false
-		for b := int64(0); b < 256; b++ {
-			v, ok := evalByteCond(info, test.Cond, b)
-			if !ok {
-				undecided = true
-				break
-			}
-			needs := b < 0x20 || b == '"' || b == '\\' || b >= 0x80
-			if needs && !v {
-				missed = append(missed, fmt.Sprintf("0x%02x", b))
-			}
-		}
-		switch {
-		case undecided:
-			c.und(name+"/byte-test", test.Pos(), "the escape test %s is not a comparison of the current byte with constants", exprStr(test.Cond))
-		case len(missed) > 0:
-			if len(missed) > 8 {
-				missed = append(missed[:8], "...")
-			}
-			c.bad(name+"/byte-test", test.Pos(), "the fast path (input copied between quotes) is taken for bytes that need escaping in JSON: %s", strings.Join(missed, " "))
-		default:
-			c.ok(name+"/byte-test", test.Pos(), true, "every control byte, '\"', '\\\\' and every byte >= 0x80 takes the slow path (evaluated for all 256 byte values)")
-		}
-		// slow path: every return inside the test's body derives from json.Marshal(s)
-		okSlow, nSlow := true, 0
-		var badAt token.Pos
+		// returns of the encoder that derive from json.Marshal(s) and from nothing else
 		marshalVars := map[types.Object]bool{}
-		ast.Inspect(test.Body, func(n ast.Node) bool {
+		ast.Inspect(fn.Decl.Body, func(n ast.Node) bool {
 			if as, ok := n.(*ast.AssignStmt); ok && len(as.Rhs) == 1 {
 				if call, ok := ast.Unparen(as.Rhs[0]).(*ast.CallExpr); ok {
 					if f := callee(info, call); funcKey(f) == "encoding/json.Marshal" && len(call.Args) == 1 {
@@ -261,9 +399,12 @@ func ruleStringEncoder(c *Ctx) {
 			}
 			return true
 		})
-		fromMarshal := func(e ast.Expr) bool {
+		fromMarshal := func(r *ast.ReturnStmt) bool {
+			if len(r.Results) != 1 {
+				return false
+			}
 			hit, other := false, false
-			ast.Inspect(e, func(n ast.Node) bool {
+			ast.Inspect(r.Results[0], func(n ast.Node) bool {
 				switch x := n.(type) {
 				case *ast.Ident:
 					o := info.ObjectOf(x)
@@ -285,29 +426,165 @@ func ruleStringEncoder(c *Ctx) {
 			})
 			return hit && !other
 		}
-		ast.Inspect(test.Body, func(n ast.Node) bool {
-			if r, ok := n.(*ast.ReturnStmt); ok {
-				nSlow++
-				if len(r.Results) != 1 || !fromMarshal(r.Results[0]) {
-					okSlow, badAt = false, r.Pos()
+		// the scan: in the encoder itself, or in a predicate helper called with the input
+		scan := findByteScan(fn, sObj)
+		var helper *FuncInfo
+		var helperCalls []*ast.CallExpr
+		verdict := func(r *ast.ReturnStmt) bool { return fromMarshal(r) }
+		if scan == nil {
+			inspectNoLit(fn.Decl.Body, func(n ast.Node) bool {
+				call, ok := n.(*ast.CallExpr)
+				if !ok || len(call.Args) != 1 {
+					return true
 				}
+				if id, ok := ast.Unparen(call.Args[0]).(*ast.Ident); !ok || info.ObjectOf(id) != sObj {
+					return true
+				}
+				f := callee(info, call)
+				fi := c.FuncOf(f)
+				if fi == nil || !strings.HasPrefix(f.Pkg().Path(), modPath) {
+					return true
+				}
+				sig := f.Type().(*types.Signature)
+				if sig.Results().Len() != 1 {
+					return true
+				}
+				if b, ok := sig.Results().At(0).Type().Underlying().(*types.Basic); !ok || b.Kind() != types.Bool {
+					return true
+				}
+				if hs := stringParam(fi); hs != nil {
+					if sc := findByteScan(fi, hs); sc != nil && (helper == nil || helper.Obj == fi.Obj) {
+						scan, helper = sc, fi
+						helperCalls = append(helperCalls, call)
+					}
+				}
+				return true
+			})
+			if helper != nil {
+				hinfo := helper.Info()
+				verdict = func(r *ast.ReturnStmt) bool { return len(r.Results) == 1 && boolConst(hinfo, r.Results[0]) == '1' }
 			}
-			return true
-		})
-		if nSlow == 0 {
-			okSlow, badAt = false, test.Pos()
 		}
-		if badAt == token.NoPos {
-			badAt = test.Pos()
+		if scan == nil {
+			c.bad(name+"/byte-test", fn.Decl.Pos(), "no loop over the bytes of the input with an escape test (in the encoder or in a predicate it calls with the input): the input is emitted between quotes unexamined")
+			continue
+		}
+		where := ""
+		if helper != nil {
+			where = " (in " + funcName(helper.Obj) + ")"
+		}
+		c.check(scan.full, name+"/scans-every-byte", scan.loop.Pos(), "the escape test runs for every byte of the input"+where, "the loop with the escape test does not visit every byte of the input")
+		// evaluate the test for all byte values
+		var missed []string
+		undecided := false
+		sinfo := scan.fn.Info()
+		for b := int64(0); b < 256; b++ {
+			v, ok := evalByteCond(sinfo, scan.test.Cond, b, scan.cur)
+			if !ok {
+				undecided = true
+				break
+			}
+			needs := b < 0x20 || b == '"' || b == '\\' || b >= 0x80
+			if needs && !v {
+				missed = append(missed, fmt.Sprintf("0x%02x", b))
+			}
+		}
+		switch {
+		case undecided:
+			c.und(name+"/byte-test", scan.test.Pos(), "the escape test %s is not a comparison of the current byte with constants", exprStr(scan.test.Cond))
+		case len(missed) > 0:
+			if len(missed) > 8 {
+				missed = append(missed[:8], "...")
+			}
+			c.bad(name+"/byte-test", scan.test.Pos(), "the fast path (input copied between quotes) is taken for bytes that need escaping in JSON: %s", strings.Join(missed, " "))
+		default:
+			c.ok(name+"/byte-test", scan.test.Pos(), true, "every control byte, '\"', '\\\\' and every byte >= 0x80 takes the slow path (evaluated for all 256 byte values)%s", where)
+		}
+		// when the test is true for some byte: every return the scanner can then reach is the escape verdict
+		testAtom := func(v byte) func(e ast.Expr) byte {
+			return func(e ast.Expr) byte {
+				if e == ast.Unparen(scan.test.Cond) || e == scan.test.Cond {
+					return v
+				}
+				return '?'
+			}
+		}
+		from := scan.fg.LocOf(scan.test.Cond)
+		okSlow, nSlow := true, 0
+		badAt := scan.test.Pos()
+		if !from.Valid() {
+			okSlow = false
+		} else {
+			// the condition node itself is the last node of its block: search from the node before it
+			from.Idx--
+			scan.fg.Reach(PathQuery{From: from, Correlate: true, Atom: testAtom('1'), Target: func(l Loc) bool {
+				if r, ok := l.Node.(*ast.ReturnStmt); ok {
+					nSlow++
+					if !verdict(r) {
+						okSlow, badAt = false, r.Pos()
+					}
+				}
+				return false
+			}})
+		}
+		if nSlow == 0 {
+			okSlow = false
+		}
+		// with a predicate helper: when it says "needs escaping" every return of the encoder is the json.Marshal output
+		if helper != nil && okSlow {
+			n := 0
+			fg.Reach(PathQuery{Correlate: true, Atom: func(e ast.Expr) byte {
+				for _, hc := range helperCalls {
+					if e == ast.Expr(hc) {
+						return '1'
+					}
+				}
+				return '?'
+			}, Target: func(l Loc) bool {
+				if r, ok := l.Node.(*ast.ReturnStmt); ok {
+					n++
+					if !fromMarshal(r) {
+						okSlow, badAt = false, r.Pos()
+					}
+				}
+				return false
+			}})
+			if n == 0 {
+				okSlow = false
+			}
 		}
 		c.check(okSlow, name+"/slow-path-json-encoder", badAt, "strings that need escaping are encoded by encoding/json.Marshal", "a string that needs escaping is not encoded by encoding/json.Marshal (Go quoting such as strconv.Quote emits \\\\x01, \\\\a, \\\\v, \\\\U…, which are not JSON escapes): replies carrying such ids, field names or error texts are not valid JSON")
-		// every other return lies after the loop (fast path)
+		// the other verdict is given only after the whole input passed the test: while the test is false no
+		// return is reached without going through the loop head again, and no return precedes the loop
 		okFast := true
-		for _, r := range fg.Returns() {
-			if r.Node.Pos() >= test.Body.Pos() && r.Node.End() <= test.Body.End() {
-				continue
+		if from.Valid() {
+			if r, _ := scan.fg.Reach(PathQuery{From: from, Correlate: true, Atom: testAtom('0'),
+				Target: func(l Loc) bool { _, ok := l.Node.(*ast.ReturnStmt); return ok },
+				Avoid:  func(l Loc) bool { return scan.loopHead(l.Node) }}); r {
+				okFast = false
 			}
-			if r.Node.Pos() < loop.End() {
+		}
+		if r, _ := scan.fg.Reach(PathQuery{
+			Target: func(l Loc) bool { r, ok := l.Node.(*ast.ReturnStmt); return ok && !verdict(r) },
+			Avoid:  func(l Loc) bool { return scan.loopHead(l.Node) }}); r {
+			okFast = false
+		}
+		if helper != nil {
+			// the encoder's quote-wrapped return is reached only after the predicate was consulted
+			if r, _ := fg.Reach(PathQuery{
+				Target: func(l Loc) bool { r, ok := l.Node.(*ast.ReturnStmt); return ok && !fromMarshal(r) },
+				Avoid: func(l Loc) bool {
+					hit := false
+					inspectNoLit(l.Node, func(n ast.Node) bool {
+						for _, hc := range helperCalls {
+							if n == ast.Node(hc) {
+								hit = true
+							}
+						}
+						return true
+					})
+					return hit
+				}}); r {
 				okFast = false
 			}
 		}
